@@ -2,6 +2,7 @@ import DoltVerif.Lemmas.ProllyMergeSendR2
 import DoltVerif.Lemmas.ProllyMergeAdd1
 import DoltVerif.Lemmas.ProllyMergeAddN
 import DoltVerif.Lemmas.ProllyMergeRefute
+import DoltVerif.Lemmas.ProllyMergeFlag
 import DoltVerif.Props.C13
 /-!
 C14 — Three-way tree merges follow key-wise merge semantics.
@@ -862,6 +863,14 @@ theorem R1_GeneratorSound_false : ¬ R1_GeneratorSound Refute.cmpB := by
   intro r1
   exact Refute.no_genSound (r1 Refute.store 6 Refute.base Refute.xx Refute.d0 Refute.wf_base Refute.wf_xx
     Refute.keys_base Refute.keys_xx Refute.sorted_base Refute.sorted_xx Refute.roots)
+
+/-- **straddle_flag_loop_is_sendPatches_loop** (proved): the instrumented loop that computes the input-shape
+flag of the known finding `MergeMaps/tail-truncation-data-loss` (`sendLoopF`: was `split` called on a removed
+range whose `from` child starts at or below `previousKey`?) goes through exactly the states of the
+transliterated `SendPatches` loop — the flag is a statement about the unchanged code's run on that input. -/
+theorem straddle_flag_loop_is_sendPatches_loop (cmp : Bytes → Bytes → Ordering) (collide : Collide) (fuel n : Nat) (s : SP) (fl : Bool) :
+    (sendLoopF cmp collide fuel n s fl).map (·.1) = sendLoop cmp collide fuel n s :=
+  sendLoopF_state cmp collide fuel n s fl
 
 /-! ### statements that are compared by the harness, not proved -/
 
